@@ -421,6 +421,30 @@ func c03misc(quick bool) []c03case {
 	for _, h := range [][3]string{{"eq4", "h=1.2.3.4", "h: 1.2.3.4"}, {"colon4", "h:1.2.3.4", "h: 1.2.3.4"}, {"eq6", "h=::1", "h: \"::1\""}, {"bracket6", "h=[::1]", "h: \"::1\""}, {"colon6", "h:::1", "h: \"::1\""}} {
 		eq("extra_hosts/"+h[0], "    extra_hosts: [\""+h[1]+"\"]\n", "    extra_hosts:\n      "+h[2]+"\n")
 	}
+	// every spelling of an address on the list side against every spelling on the mapping side, for both attributes
+	// that take host lists, one and two addresses per host
+	addrs := [][2]string{{"1.2.3.4", "1.2.3.4"}, {"::1", "::1"}, {"[::1]", "::1"}, {"[fe80::2]", "fe80::2"}}
+	for _, attr := range []string{"extra_hosts", "build.extra_hosts"} {
+		wrap := func(body string) string {
+			if attr == "build.extra_hosts" {
+				return "    build:\n      context: .\n  " + strings.ReplaceAll(strings.TrimSuffix(body, "\n"), "\n", "\n  ") + "\n"
+			}
+			return body
+		}
+		for _, la := range addrs {
+			for _, ma := range addrs {
+				if la[1] != ma[1] {
+					continue
+				}
+				for si, sep := range []string{"=", ":"} {
+					eq(fmt.Sprintf("%s/list%d(%s)-vs-mapping(%s)", attr, si, la[0], ma[0]),
+						wrap("    extra_hosts: [\"h"+sep+la[0]+"\"]\n"), wrap("    extra_hosts:\n      h: \""+ma[0]+"\"\n"))
+					eq(fmt.Sprintf("%s/list%d(%s)-vs-mapping-list(%s)", attr, si, la[0], ma[0]),
+						wrap("    extra_hosts: [\"h"+sep+la[0]+"\", \"h"+sep+"9.9.9.9\"]\n"), wrap("    extra_hosts:\n      h: [\""+ma[0]+"\", \"9.9.9.9\"]\n"))
+				}
+			}
+		}
+	}
 	bad("extra_hosts/bad/noaddr", "    extra_hosts: [\"justhost\"]\n")
 	// string or list
 	for _, pos := range []string{"dns", "dns_search", "tmpfs", "env_file", "label_file"} {
